@@ -25,13 +25,15 @@ PROPS = {
         "rule": ("cases: all 16384 (method,class) pairs; every ordinary attribute kind x boundary size "
                  "classes x all 8 tails; random attribute sequences (quick <=12, thorough <=40 attributes); "
                  "very long lists (255 ... 5000 attributes of 1-3 alternating kinds, up to 64,000 bytes); "
-                 "large blobs. Oracle: the generated logical message; tail values re-computed by the "
+                 "large blobs; messages of 65,400-65,532 attribute bytes ending in an integrity / FINGERPRINT tail. Every "
+                 "message with a tail attribute is additionally decoded by a validating decoder under the key it was "
+                 "encoded with (must succeed with the same message). Oracle: the generated logical message; tail values re-computed by the "
                  "reference HMAC/CRC. Non-trivial = at least one attribute and encoding succeeded; "
                  "distinct = 64-bit hash of the encoded bytes."),
         "assumptions": [STABLE,
                         "REALM/NONCE values are whatever the library constructor stores for a generated "
                         "quoted-string candidate (constructor rejections are not counted as violations)"],
-        "min_counters": {"types.pairs": 16384, "many-attributes.messages": 30},
+        "min_counters": {"types.pairs": 16384, "many-attributes.messages": 30, "roundtrip.validated": 10000, "near-limit-tails.messages": 50},
         "exhaustive_all": False,
     },
     "C02": {
@@ -306,7 +308,7 @@ PROPS = {
                  "silent (indication with both attributes, response with both on reliable transport, buffers the library "
                  "reports as undecodable). Non-trivial = every conversation." + ENUM_S),
         "assumptions": [STABLE],
-        "min_counters": {"enumerated.reply-sequences": 13000, "c07.outgoing-checked": 10000, "c07.algorithm-learned": 300, "c07.reliable-failing-responses": 200,
+        "min_counters": {"c07.clients-with-raised-limit": 100, "c07.raised-limit.requests": 5000, "enumerated.reply-sequences": 13000, "c07.outgoing-checked": 10000, "c07.algorithm-learned": 300, "c07.reliable-failing-responses": 200,
                          "c07.unreliable-failing-responses": 500, "cred.timeout-after-failed-auth": 50,
                          "c07.incoming.response:mi-valid:none-agreed": 50, "c07.incoming.response:both:none-agreed": 20,
                          "c07.incoming.indication:mi-valid:sha1-agreed": 10},
@@ -329,7 +331,7 @@ PROPS = {
                  "the client showed); indications refused. The oracle adopts a challenge only when the client emitted Retry for "
                  "it. Non-trivial = every conversation." + ENUM_L),
         "assumptions": [STABLE, "which supported algorithm is 'chosen' is left to the client (RFC: first supported; library: prefers SHA-256)"],
-        "min_counters": {"enumerated.conversations": 5000, "c08.challenges-accepted": 2000, "c08.stale-nonce-accepted": 300, "c08.requests.First": 1000,
+        "min_counters": {"c08.401-with-repeated-nonce": 20, "lt.requests-under-non-opaquestring-realm": 500, "enumerated.conversations": 5000, "c08.challenges-accepted": 2000, "c08.stale-nonce-accepted": 300, "c08.requests.First": 1000,
                          "c08.requests.After401": 1000, "c08.requests.After438": 300, "c08.requests.Authenticated": 500,
                          "c08.requests-accepted-by-reference-server": 500, "c08.incoming.success:authenticated": 500,
                          "c08.incoming.success:wrong-integrity": 50, "c08.incoming.success:no-integrity": 50,
